@@ -13,7 +13,7 @@ BLOB = (400, 1400)
 RULE = ("Hypothesis byte-backed generator: 1-5 lines of which most address a command whose handler (each of write/read/run/test) returns HOLD after 0-2 NEXT/DATA_NEXT, "
         "with the following lines already waiting in the input; release by cat_hold_exit(OK|ERROR) at a generated step, on stall, or by an event handler returning "
         "HOLD_EXIT_OK / HOLD_EXIT_ERROR (event test handlers also return PRINT_CMD_LIST_OK / DATA_OK during holds); READ/TEST events triggered before, during and after holds; spurious cat_hold_exit before, after and repeatedly during holds; "
-        "two or more holds per run; write back-pressure; cat_is_hold sampled after every step and queried right after every release request. Oracle: from HOLD until "
+        "two or more holds per run; a quarter of the cases with a (never failing, not recursive) mutex configured; write back-pressure; cat_is_hold sampled after every step and queried right after every release request. Oracle: from HOLD until "
         "the first accepted request no result code for that line and no input byte; events accepted during a stall-released hold are completely delivered before the "
         "release; after the request exactly one result code matching (one of) the requested status(es), then one result code per following line; cat_hold_exit "
         "returns OK during a hold and ERROR_NOT_HOLD outside; the run with the spurious calls removed is trace-identical; cat_is_hold is HOLD exactly inside the "
